@@ -223,6 +223,13 @@ def equal_penalty_tie(ctx, text, cfg_a, cfg_b):
         except Exception:
             return False
         ctx.workdirs.append(wd)
+        # only ties of the search AS MODELLED are this finding: the model must agree with the implementation on both runs
+        try:
+            counts, _d, _x, _v = runner.run_driver(files, ["search"])
+        except Exception:
+            return False
+        if list(counts.get("search", [0, 0])) != [1, 0]:
+            return False
         lines, lab, ws, wd_ = [], None, {}, {}
         for tf in files:
             try:
@@ -1948,6 +1955,37 @@ def run_c11(ctx):
         g = []
         for w in ws:
             c = ctx.case("boundary", pc.text, (w,) + tuple(pc.cfg[1:]))
+            cases.append(c)
+            g.append((w, c))
+        groups.append(g)
+    # one wrapped statement (chains of qualified calls joined by operators, generic receivers, parameter groups) at EVERY width of a
+    # window of consecutive widths: layouts of equal or nearly equal cost must not alternate between neighbouring limits
+    def chain_statement(rng):
+        def name(n=None):
+            return rng.choice(["Helper", "Ledger", "Orders", "Owner", "Currency", "Account", "Balance", "Total", "Page", "Sum", "Item", "Customer"]) + "x" * rng.randrange(0, 6)
+        def term():
+            t = name() + (rng.choice(["<TCustomerRecord>", "<T>", "<string, Integer>"]) if rng.random() < 0.3 else "")
+            for _ in range(rng.randrange(1, 4)):
+                t += "." + name() + ("(" + ", ".join(rng.choice([name(), str(rng.randrange(100000)), "'s'"]) for _ in range(rng.randrange(0, 3))) + ")" if rng.random() < 0.8 else "")
+            return t
+        c = rng.random()
+        if c < 0.6:
+            body = name() + " := " + (" " + rng.choice(["+", "-", "and", "or", "*"]) + " ").join(term() for _ in range(rng.randrange(2, 4))) + ";"
+        elif c < 0.8:
+            body = name() + "(" + ", ".join(term() for _ in range(rng.randrange(2, 4))) + ");"
+        else:
+            groups_ = "; ".join(rng.choice(["const ", "var ", "out ", ""]) + ", ".join(name() for _ in range(rng.randrange(1, 3))) + ": " + rng.choice(["T", "TLongTypeName", "string"]) + rng.choice(["", "", " = 'x'"]) for _ in range(rng.randrange(1, 4)))
+            return "type TFoo = class\n  " + rng.choice(["procedure ", "function "]) + name() + "(" + groups_ + ")" + rng.choice(["", ": Integer"]) + ";" + rng.choice(["", " virtual;", " overload; static;"]) + "\nend;\n", None
+        depth = rng.randrange(0, 3)
+        return "procedure P;\nbegin\n" + "begin\n" * depth + body + "\n" + "end;\n" * depth + "end;\n", body
+    for _ in range(ctx.n(40, 600)):
+        text, body = chain_statement(rng)
+        L = max(len(l) for l in text.split("\n"))
+        base = gen.random_cfg(rng)
+        lo = rng.randrange(max(16, L // 3), max(17, L))
+        g = []
+        for w in range(lo, lo + ctx.n(14, 24)):
+            c = ctx.case("consecutive", text, (w,) + tuple(base[1:]))
             cases.append(c)
             g.append((w, c))
         groups.append(g)
